@@ -463,6 +463,143 @@ def gen_matrix(family, seed):
     return spec
 
 
+# ----------------------------------------------------------------------------- lines that meet on a boundary
+OPPOSED = [('>', '<'), ('<', '>'), ('>=', '<='), ('<=', '>='), ('>', '<='), ('>=', '<'), ('<', '>='), ('<=', '>')]
+STRICT = ('<', '>')
+
+
+def _pair_kind(c1, c2, apart):
+    """names the situation of two relations 'v c1 r', 'v c2 r(+delta)' (used as violation sub-case)"""
+    if (c1, c2) in OPPOSED:
+        k = {0: 'nonstrict-nonstrict', 1: 'strict-nonstrict', 2: 'strict-strict'}[(c1 in STRICT) + (c2 in STRICT)]
+    elif c1 in STRICT + ('<=', '>=') and c2 in STRICT + ('<=', '>='):
+        k = 'same-direction'
+    else:
+        k = 'with-equality' if {c1, c2} & {'=', '=='} else 'with-unequal'
+    return k + ('-apart' if apart else '')
+
+
+def _side(rng, terms, const):
+    terms = [(c, v) for c, v in terms if c]
+    if not terms:
+        return _num(const)
+    s = _terms(rng, terms)
+    return s if not const else s + (' + ' if const > 0 else ' - ') + _num(abs(const))
+
+
+def _bound_line(rng, v, cmp, terms, const, style):
+    """a differently scaled / shifted / rearranged text of the relation  v cmp sum(terms) + const"""
+    k = rng.choice([1, 2, 3, 4, -1, -2, -3] + ([0.5, -0.5, 1.5, 0.25] if style == 'frac' else []))
+    d = rng.choice([0, 0, 0, 1, -1, 2, 5, -7])
+    moved = [t for t in terms if rng.random() < .4]
+    left = [(k, v)] + [(-k * c, x) for c, x in moved]
+    right = [(k * c, x) for c, x in terms if (c, x) not in moved]
+    if k == 1 and rng.random() < .5:
+        rng.shuffle(left)
+    cmp = cmp if k > 0 else FLIP[cmp]
+    l, r = _side(rng, left, d), _side(rng, right, k * const + d)
+    return '%s %s %s' % ((r, FLIP[cmp], l) if rng.random() < .25 else (l, cmp, r))
+
+
+def _same_sides(lines):
+    """two lines with textually identical sides and different comparators (the situation of #opposed-pair)"""
+    seen = {}
+    for l in lines:
+        a, c, b = split_line(l)
+        if seen.setdefault((a, b), c) != c or seen.get((b, a), FLIP[c]) != FLIP[c]:
+            return True
+    return False
+
+
+def _constant_line(line):
+    """the variables cancel in lhs - rhs (numerator constant): the situation of #line-dropped"""
+    _, n, d, _ = relation(line)
+    return not any(m for m in n)
+
+
+def gen_boundary(family, seed):
+    rng = random.Random(seed)
+    style = rng.choice(['int', 'int', 'int', 'frac'])
+    nv = rng.randint(1, 3)
+    names, kw = _naming(rng, nv)
+    v = rng.choice(names)
+    oth = [x for x in names if x != v]
+    while True:
+        terms = [(rng.choice([1, 2, 3, -1, -2]), x) for x in oth if rng.random() < .5]
+        const = rng.choice([0, 1, 2, 3, 5, -1, -4, 7])
+        c1, c2 = rng.choice(OPPOSED) if rng.random() < .75 else (rng.choice(ALLCMP), rng.choice(ALLCMP))
+        delta = 0 if rng.random() < .7 else rng.choice([1, -1, 2, -3])
+        lines = [_bound_line(rng, v, c1, terms, const, style), _bound_line(rng, v, c2, terms, const + delta, style)]
+        if rng.random() < .25:                            # a third relation on the same boundary
+            lines.append(_bound_line(rng, v, rng.choice(ALLCMP), terms, const, style))
+        for _ in range(rng.choice([0, 0, 1, 2])):
+            lines.append(_linear_line(rng, names, 'int'))
+        rng.shuffle(lines)
+        if not _same_sides(lines) and not any(_constant_line(l) for l in lines):
+            break
+    kw['all'] = rng.random() < .8
+    if rng.random() < .25:
+        kw['cycle'] = True
+    if rng.random() < .2:
+        kw['target'] = rng.sample(names, len(names))
+    return {'family': family, 'rseed': seed, 'style': style, 'text': '\n'.join(lines), 'kwds': kw,
+            'pair': _pair_kind(c1, c2, delta != 0)}
+
+
+def gen_shared_sign(family, seed):
+    """two or more rational relations whose direction depends on the sign of the SAME variable"""
+    rng = random.Random(seed)
+    style = rng.choice(['int', 'int', 'int', 'frac'])
+    nv = rng.randint(2, 4)
+    names, kw = _naming(rng, nv)
+    xk = rng.choice(names)
+    oth = [x for x in names if x != xk]
+    forms = ['%(a)s/%(xk)s %(cmp)s %(c)s', '%(a)s/%(xk)s + %(b)s %(cmp)s %(c)s', '%(xi)s/%(xk)s %(cmp)s %(c)s',
+             '%(a)s*%(xi)s/%(xk)s + %(b)s %(cmp)s %(c)s', '%(c)s %(cmp)s %(a)s*%(xi)s/%(xk)s',
+             '%(xi)s %(cmp)s %(c)s/%(xk)s', '%(a)s*%(xi)s %(cmp)s %(c)s/%(xk)s + %(b)s',
+             '%(a)s*%(xi)s/%(xk)s**2 %(cmp)s %(c)s']
+    if len(oth) > 1:
+        forms += ['%(xi)s/%(xk)s + %(b)s %(cmp)s %(c)s*%(xj)s', '(%(a)s*%(xi)s + %(b)s*%(xj)s)/%(xk)s %(cmp)s %(c)s']
+    while True:
+        lines = []
+        for _ in range(rng.choice([2, 2, 2, 3])):
+            xi = rng.choice(oth)
+            xj = rng.choice([x for x in oth if x != xi] or [None])
+            lines.append(rng.choice(forms) % dict(a=_num(_coef(rng, style)), b=_num(_coef(rng, style)),
+                                                  c=_num(_coef(rng, style)), xi=xi, xj=xj, xk=xk,
+                                                  cmp=rng.choice(ALLCMP if rng.random() < .3 else ['<', '>', '<=', '>='])))
+        if rng.random() < .3:
+            lines.append(_linear_line(rng, oth, 'int'))
+        if rng.random() < .2:                             # a plain bound on the sign variable itself
+            lines.append('%s %s %s' % (xk, rng.choice(['<', '>', '<=', '>=']), rng.choice(['0', '0', '1', '-2'])))
+        rng.shuffle(lines)
+        if not _same_sides(lines) and not any(_constant_line(l) for l in lines):
+            break
+    kw['all'] = True
+    return {'family': family, 'rseed': seed, 'style': style, 'text': '\n'.join(lines), 'kwds': kw, 'factor': xk,
+            'pair': 'shared-sign-variable'}
+
+
+MERGE_SIDES = ['A', 'B', 'x0', 'x0 + x1', '2*x1', 'x0/x1', 'A - B']
+MERGE_RHS = ['0', '0', '1', '-1', '3', '2.5', 'B', 'x1', '2*x1 + 1']
+
+
+def gen_merge(family, seed, index):
+    """bounds 'X cmp r' for symbolic.merge(inclusive=False); index < 147: every comparator pair on one side with equal
+    / increasing / decreasing right-hand sides, then seeded sequences of 2-5 bounds over 1-2 sides"""
+    rng = random.Random(seed)
+    if index < len(ALLCMP) ** 2 * 3:
+        c1, c2 = ALLCMP[index % 7], ALLCMP[index // 7 % 7]
+        r1, r2 = [('0', '0'), ('1', '2'), ('2', '1')][index // 49]
+        bounds = ['A %s %s' % (c1, r1), 'A %s %s' % (c2, r2)]
+    else:
+        sides = rng.sample(MERGE_SIDES, rng.choice([1, 1, 2]))
+        rhs = rng.sample(MERGE_RHS, rng.choice([1, 1, 2]))
+        bounds = ['%s %s %s' % (rng.choice(sides), rng.choice(ALLCMP if rng.random() < .4 else ['<', '>', '<=', '>=']),
+                                rng.choice(rhs)) for _ in range(rng.randint(2, 5))]
+    return {'family': family, 'rseed': seed, 'bounds': bounds}
+
+
 # ----------------------------------------------------------------------------- one program
 def _lines(text):
     return [l.strip() for l in text.split('\n') if l.strip()]
